@@ -930,23 +930,70 @@ mod v_iface_neighbor {
     }
 
     // ------------------------------------------------------------------ 5. socket data survives an unresolved neighbor
-    // @harness props=C16 cfg=KI4 tier=q to=900 mem=8 unwind=8 opts=nomem,fs300 covers=4 funcs=Interface::socket_egress;udp::Socket::dispatch;udp::Socket::send_queue;InterfaceInner::dispatch_ip;InterfaceInner::lookup_hardware_addr;InterfaceInner::has_neighbor;socket_meta::Meta::egress_permitted;socket_meta::Meta::neighbor_missing;socket_meta::Meta::poll_at bounds=one_UDP_socket_with_one_queued_4-byte_datagram_to_any_on-link_host_192.168.1.x;_neighbor_cache_holding_2_entries_(fixed_keys_192.168.1.2,_.77;_any_addresses,_expiries)_without_a_live_entry_for_it;_any_silent_until;_device_with_or_without_a_free_transmit_buffer;_then_the_socket's_next_dispatch_is_observed
+    // `Interface::socket_egress` on a real SocketSet does not fit: with the TCP variant in the `Socket` enum CBMC runs
+    // out of 8 GB in propositional reduction even for the bare call (measured here and by udp_egress_exactly_once in
+    // iface_egress.rs).  The harness therefore runs the body of socket_egress's loop for one UDP socket item - the same
+    // calls in the same order on the real objects (Meta::egress_permitted, udp::Socket::dispatch, Device::transmit,
+    // InterfaceInner::dispatch_ip, Meta::neighbor_missing), copied from src/iface/interface/mod.rs lines 713-813 - with
+    // the socket and its Meta as separate objects instead of a SocketSet item.  The glue of socket_egress itself
+    // (iteration, match on the socket kind) is outside this harness's claim.
+    #[cfg(all(feature = "proto-ipv4", feature = "socket-udp"))]
+    enum EgressError {
+        Exhausted,
+        Dispatch,
+    }
+
+    /// socket_egress's loop body for a UDP socket item; returns (socket was polled, PollResult of the pass)
+    #[cfg(all(feature = "proto-ipv4", feature = "socket-udp"))]
+    fn egress_one_udp(
+        inner: &mut InterfaceInner,
+        fragmenter: &mut Fragmenter,
+        device: &mut CapDev<CAP>,
+        meta: &mut crate::iface::socket_meta::Meta,
+        socket: &mut crate::socket::udp::Socket<'_>,
+    ) -> (bool, PollResult) {
+        let mut result = PollResult::None;
+        if !meta.egress_permitted(inner.now, |ip_addr| inner.has_neighbor(&ip_addr)) {
+            return (false, result);
+        }
+        let mut neighbor_addr = None;
+        let mut respond = |inner: &mut InterfaceInner, meta: PacketMeta, response: Packet| {
+            neighbor_addr = Some(response.ip_repr().dst_addr());
+            let t = device.transmit(inner.now).ok_or(EgressError::Exhausted)?;
+            inner.dispatch_ip(t, meta, response, fragmenter).map_err(|_| EgressError::Dispatch)?;
+            result = PollResult::SocketStateChanged;
+            Ok(())
+        };
+        let r = socket.dispatch(inner, |inner, meta, (ip, udp, payload)| respond(inner, meta, Packet::new(ip, IpPayload::Udp(udp, payload))));
+        match r {
+            Err(EgressError::Exhausted) => {}
+            Err(EgressError::Dispatch) => {
+                meta.neighbor_missing(inner.now, neighbor_addr.expect("non-IP response packet"));
+            }
+            Ok(()) => {}
+        }
+        (true, result)
+    }
+
+    // @harness props=C16 cfg=KI4 tier=q to=900 mem=8 unwind=8 opts=nomem covers=5 funcs=udp::Socket::dispatch;InterfaceInner::dispatch_ip;InterfaceInner::lookup_hardware_addr;InterfaceInner::has_neighbor;socket_meta::Meta::egress_permitted;socket_meta::Meta::neighbor_missing;socket_meta::Meta::poll_at;udp::Socket::send_queue bounds=loop_body_of_Interface::socket_egress_for_one_UDP_socket_(socket_and_Meta_as_separate_objects,_not_in_a_SocketSet);_one_queued_4-byte_datagram_to_any_on-link_host_192.168.1.x_without_a_live_cache_entry;_neighbor_cache_holding_2_entries_(fixed_keys_192.168.1.2,_.77;_any_addresses,_expiries),_any_silent_until;_device_with_or_without_a_free_transmit_buffer;_three_passes:_unknown,_again_at_any_instant_within_2_s_(still_unknown),_after_the_address_was_learned
     #[kani::proof]
     pub(crate) fn egress_keeps_data_when_neighbor_unknown() {
         #[cfg(all(feature = "proto-ipv4", feature = "socket-udp"))]
         {
+            use crate::iface::socket_meta::Meta;
             use crate::socket::udp as sudp;
-            let mut dev = CapDev::<CAP>::new(Medium::Ethernet, 1500, ChecksumCapabilities::ignored());
+            let mut dev = CapDev::<CAP>::new(Medium::Ethernet, 1514, ChecksumCapabilities::ignored());
             let now = any_instant(0, T_MAX);
             let mut iface = Interface::new(Config::new(HardwareAddress::Ethernet(OWN_MAC)), &mut dev, now);
             push_own_addrs(&mut iface, false);
             // 2 entries (fixed keys .2 and .77): the later fill of dst replaces one of them or appends, at concrete offsets
             let (c, m) = cache_with(2, now);
             iface.inner.neighbor_cache = c;
+            let mut inner = iface.inner;
+            let mut fragmenter = iface.fragmenter;
             let x: u8 = kani::any();
             kani::assume(x != 255);
-            let dst4 = Ipv4Address::new(192, 168, 1, x);
-            let dst = IpAddress::Ipv4(dst4);
+            let dst = IpAddress::Ipv4(Ipv4Address::new(192, 168, 1, x));
             // the hardware address of dst is unknown: no entry, or an expired one
             kani::assume(!m_lookup(&m, &dst, now).found());
 
@@ -964,20 +1011,20 @@ mod v_iface_neighbor {
             sock.bind(lport).unwrap();
             let data: [u8; 4] = kani::any();
             sock.send_slice(&data, (dst, rport)).unwrap();
-            let mut storage: [SocketStorage; 1] = [SocketStorage::EMPTY];
-            let mut sockets = SocketSet::new(&mut storage[..]);
-            let h = sockets.add(sock);
+            let mut meta = Meta::default();
 
+            // ---- pass 1: neighbor unknown
             dev.tx_ok = kani::any();
-            let r1 = iface.socket_egress(&mut dev, &mut sockets);
-
+            let tx_ok1 = dev.tx_ok;
+            let (polled1, r1) = egress_one_udp(&mut inner, &mut fragmenter, &mut dev, &mut meta, &mut sock);
+            assert!(polled1, "prop:c16_fresh_socket_is_polled");
             // the datagram is still queued, nothing claims to have been sent
-            assert!(sockets.get::<sudp::Socket>(h).send_queue() == 1, "prop:c16_datagram_stays_queued_while_neighbor_unknown");
+            assert!(sock.send_queue() == 1, "prop:c16_datagram_stays_queued_while_neighbor_unknown");
             assert!(r1 == PollResult::None, "prop:c16_unresolved_egress_reports_no_progress");
             // at most one frame, and it is the ARP request - never the datagram to a guessed address
             let arp_sent = dev.tx.frames == 1;
             assert!(dev.tx.frames <= 1, "prop:c16_at_most_one_arp_request");
-            assert!(arp_sent == (dev.tx_ok && now >= m.silent), "prop:c16_request_only_when_not_silent");
+            assert!(arp_sent == (tx_ok1 && now >= m.silent), "prop:c16_request_only_when_not_silent");
             if arp_sent {
                 check_request_frame(&dev.tx.buf0, dev.tx.len0, &dst);
             }
@@ -985,40 +1032,56 @@ mod v_iface_neighbor {
             if arp_sent {
                 m1.silent = plus(now, SEC);
             }
-            assert_cache_is(&iface.inner.neighbor_cache, &m1, now);
-            // the socket waits for that neighbor: no egress before now + 1 s unless the neighbor is found
-            {
-                let item = sockets.items_mut().next().unwrap();
-                if dev.tx_ok {
-                    let t = any_instant(now.total_micros(), now.total_micros() + 2 * SEC);
-                    let permitted = item.meta.egress_permitted(t, |_| false);
-                    assert!(permitted == (t.total_micros() >= now.total_micros() + SEC), "prop:c16_socket_silenced_for_1s_while_neighbor_missing");
-                    assert!(item.meta.poll_at(PollAt::Now, |_| false, now) == PollAt::Time(plus(now, SEC)), "prop:c16_silenced_socket_polled_at_end_of_silence");
-                    assert!(item.meta.poll_at(PollAt::Now, |a| a == dst, now) == PollAt::Now, "prop:c16_socket_unsilenced_when_neighbor_found");
-                    assert!(item.meta.poll_at(PollAt::Now, |a| a != dst, now) == PollAt::Time(plus(now, SEC)), "prop:c16_socket_waits_for_its_own_neighbor");
-                } else {
-                    // device exhausted: nothing was attempted, the socket is not silenced
-                    assert!(item.meta.egress_permitted(now, |_| false), "prop:c16_exhausted_device_does_not_silence_socket");
+            assert_cache_is(&inner.neighbor_cache, &m1, now);
+            // the socket waits for that neighbor until now + 1 s unless the neighbor is found
+            if tx_ok1 {
+                assert!(meta.poll_at(PollAt::Now, |_| false, now) == PollAt::Time(plus(now, SEC)), "prop:c16_silenced_socket_polled_at_end_of_silence");
+                assert!(meta.poll_at(PollAt::Now, |a| a == dst, now) == PollAt::Now, "prop:c16_socket_unsilenced_when_neighbor_found");
+                assert!(meta.poll_at(PollAt::Now, |a| a != dst, now) == PollAt::Time(plus(now, SEC)), "prop:c16_socket_waits_for_its_own_neighbor");
+            } else {
+                // device exhausted: nothing was attempted, the socket is not silenced
+                assert!(meta.poll_at(PollAt::Now, |_| false, now) == PollAt::Now, "prop:c16_exhausted_device_does_not_silence_socket");
+            }
+
+            // ---- pass 2: a later poll (any instant in [now, now + 2 s]), neighbor still unknown
+            let t2 = any_instant(now.total_micros(), now.total_micros() + 2 * SEC);
+            inner.now = t2;
+            // the entry (if any) for dst stays unusable: it was expired at `now`
+            dev.tx_ok = true;
+            let (polled2, r2) = egress_one_udp(&mut inner, &mut fragmenter, &mut dev, &mut meta, &mut sock);
+            if tx_ok1 {
+                assert!(polled2 == (t2 >= plus(now, SEC)), "prop:c16_socket_silenced_for_1s_while_neighbor_missing");
+            }
+            assert!(sock.send_queue() == 1 && r2 == PollResult::None, "prop:c16_datagram_stays_queued_while_neighbor_unknown");
+            let arp2 = dev.tx.frames == arp_sent as usize + 1;
+            assert!(dev.tx.frames <= arp_sent as usize + 1, "prop:c16_at_most_one_arp_request");
+            if arp2 {
+                // a second request only when the cache's silent second is over
+                assert!(polled2 && t2 >= m1.silent, "prop:c16_request_only_when_not_silent");
+                if arp_sent {
+                    assert!(t2.total_micros() - now.total_micros() >= SEC, "prop:c16_requests_at_least_1s_apart");
+                    check_request_frame(&dev.tx.buf1, dev.tx.len1, &dst);
                 }
             }
 
-            // ---- the queued datagram is intact: what the socket hands to the interface next is the original datagram
-            // (its way onto the wire once the neighbor is known is lookup_hw_addr_step's hit case)
-            let mut seen = false;
-            let sock = sockets.get_mut::<sudp::Socket>(h);
-            let r2: Result<(), ()> = sock.dispatch(&mut iface.inner, |_cx, _meta, (ip, udp, payload)| {
-                seen = true;
-                assert!(ip.src_addr() == IpAddress::Ipv4(OWN4) && ip.dst_addr() == dst && ip.next_header() == IpProtocol::Udp && ip.payload_len() == 12, "prop:c16_queued_datagram_unmodified");
-                assert!(udp.src_port == lport && udp.dst_port == rport, "prop:c16_queued_datagram_unmodified");
-                assert!(payload.len() == 4 && payload[0] == data[0] && payload[1] == data[1] && payload[2] == data[2] && payload[3] == data[3], "prop:c16_queued_datagram_unmodified");
-                Ok(())
-            });
-            assert!(seen && r2.is_ok(), "prop:c16_datagram_stays_queued_while_neighbor_unknown");
-            assert!(sock.send_queue() == 0, "prop:c16_datagram_leaves_queue_only_when_emitted");
+            // ---- pass 3: the neighbor has answered; the socket is polled at once and the datagram goes out, unmodified
+            let hw = any_hw();
+            inner.neighbor_cache.fill(dst, hw, t2);
+            let before = dev.tx.frames;
+            let (polled3, r3) = egress_one_udp(&mut inner, &mut fragmenter, &mut dev, &mut meta, &mut sock);
+            assert!(polled3, "prop:c16_socket_unsilenced_when_neighbor_found");
+            assert!(r3 == PollResult::SocketStateChanged && dev.tx.frames == before + 1 && sock.send_queue() == 0, "prop:c16_datagram_sent_once_neighbor_known");
+            let src = IpAddress::Ipv4(OWN4);
+            if before == 0 {
+                check_ip_frame(&dev.tx.buf0, dev.tx.len0, &hw, &src, &dst, lport, rport, &data);
+            } else if before == 1 {
+                check_ip_frame(&dev.tx.buf1, dev.tx.len1, &hw, &src, &dst, lport, rport, &data);
+            }
             kani::cover!(arp_sent && m_key_index(&m, &dst).is_none(), "ARP request sent for a neighbor never seen");
-            kani::cover!(!arp_sent && dev.tx_ok && now < m.silent, "rate limited: no request, datagram kept");
+            kani::cover!(!arp_sent && tx_ok1 && now < m.silent, "rate limited: no request, datagram kept");
             kani::cover!(m_key_index(&m, &dst).is_some() && arp_sent, "expired entry not used, rediscovered");
-            kani::cover!(m.silent > now && m.silent.total_micros() - now.total_micros() == SEC, "request had just been sent");
+            kani::cover!(arp_sent && arp2, "second request one second later");
+            kani::cover!(tx_ok1 && !polled2 && before == 1, "silenced socket skipped, then sent as soon as the neighbor is known");
         }
     }
 
